@@ -8,6 +8,19 @@ import common
 t0 = time.time()
 d = common.build_cfg()
 print("cfg.so:", d)
+# regenerate coq/Generated/*.v (not committed) before building
+import glob
+import importlib
+sys.path.insert(0, os.path.join(common.VERIF, "harness", "props"))
+for f in sorted(glob.glob(os.path.join(common.VERIF, "harness", "props", "c[0-9][0-9].py"))):
+  name = os.path.basename(f)[:-3]
+  try:
+    mod = importlib.import_module(name)
+    if hasattr(mod, "generate"):
+      mod.generate()
+      print("generated tables for", name)
+  except Exception as e:  # pylint: disable=broad-except
+    print("generate() of", name, "failed:", repr(e))
 vos = [f[:-2] + ".vo" for f in common.coq_files() if not f.startswith("Extract/")]
 ok, out = common.coq_make(vos)
 print(out[-3000:] if not ok else "coq: %d files built" % len(vos))
